@@ -142,6 +142,30 @@ class AggWorld(object):
         return FailingLines(f)
       return f
     crules.open = sim_open
+    # the rules' name cache reads a monotonic clock that may move on between a membership
+    # test and the read that follows it (decided by the run's choices)
+    timer = getattr(w, 'ttl_timer', None)
+    if timer is not None and (self.settings.CACHE_METRIC_NAMES_TTL or 0) > 0:
+      import sys
+      self.ttl_skew = 0.0
+      self.ttl_prev_test = False
+      jump = float(self.settings.CACHE_METRIC_NAMES_TTL) + 0.5
+
+      def ttl_time():
+        f, is_test = sys._getframe(1), False
+        for _ in range(3):
+          if f is None:
+            break
+          if f.f_code.co_name == '__contains__':
+            is_test = True
+            break
+          f = f.f_back
+        after_test, me.ttl_prev_test = me.ttl_prev_test, is_test
+        if after_test and not is_test and me.ctx.ch.pick('ttlclock', 2) == 1:
+          me.ttl_skew += jump
+          me.ctx.fault('name_cache_clock_moves_between_reads')
+        return me.r.seconds() + me.ttl_skew
+      timer.fn = ttl_time
 
   def ref_rules_tick(self):
     import os
